@@ -15,6 +15,7 @@ def run(chk):
     facts = chk.facts
     chk.explanation = (
         "Decides the acquire/release pairing behind C13, not the values of variables after arbitrary programs. "
+        "R13d: two parameters bound in sequence are restored in reverse order (LIFO), so that `|x, x|` leaves the outer `x` intact. "
         "R13a: in every closure Runner method, each closure::insert (swap the parameter in, remember the old value) is followed on EVERY "
         "non-unwind path to a Return — including `?` error exits — by closure::cleanup of the same identifier with the value that insert returned. "
         "R13b: who-may-call — RuntimeState::swap_variable is called only from closure::insert; every closure-taking stdlib function reaches the "
@@ -69,6 +70,38 @@ def run(chk):
                 chk.violation(rid, b.file, n, "insert#%d cleanup skipped on an exit" % ordinal,
                               "closure parameter inserted at line %s is not restored on the exit through %s: the parameter's value leaks into "
                               "the enclosing scope when the closure fails" % (it["ln"], esc), detail=desc, loc=desc["insert_at"])
+
+    rid = "R13d"
+    chk.rule(rid, "parameters are restored in reverse order of binding (two parameters may name the same variable)", floor=2)
+    for n in runners:
+        b = facts.body(n)
+        inserts = [(bb, t) for bb, t in b.calls() if b.callee(t) == INSERT]
+        cleanups = [(bb, t) for bb, t in b.calls() if b.callee(t) == CLEANUP]
+        if len(inserts) < 2:
+            continue
+        # order of the inserts along the CFG
+        inserts.sort(key=lambda x: sum(1 for y in inserts if b.dominates(y[0], x[0])))
+        pairs = []
+        for ibb, it in inserts:
+            tainted = forward_taint(b, {it["dest"]["l"]})
+            cb_ = [cbb for cbb, ct in cleanups if op_local(ct["args"][2]) in tainted]
+            pairs.append((ibb, it, cb_))
+        bad = None
+        for i in range(len(pairs)):
+            for j in range(i + 1, len(pairs)):
+                # insert i happens before insert j  =>  every cleanup of j must precede (dominate) the cleanup of i
+                ci, cj = pairs[i][2], pairs[j][2]
+                if not ci or not cj:
+                    continue
+                if not all(any(b.dominates(y, x) and x != y for y in cj) for x in ci):
+                    bad = (pairs[i][1]["ln"], pairs[j][1]["ln"])
+        d = {"fn": n, "inserts": [p_[1]["ln"] for p_ in pairs], "cleanup_blocks": [p_[2] for p_ in pairs]}
+        chk.instance(rid, d, ok=bad is None)
+        if bad is not None:
+            chk.violation(rid, b.file, n, "parameters restored in binding order",
+                          "the parameter bound first (line %s) is restored before the one bound second (line %s): when both name the same variable "
+                          "(`|x, x|`) the second restore puts the first parameter's value back and it leaks into the enclosing scope" % bad, detail=d,
+                          loc="%s:%s" % (b.file, bad[0]))
 
     rid = "R13b"
     chk.rule(rid, "RuntimeState::swap_variable is called only by closure::insert; closure::insert/cleanup only by Runner methods", floor=3)
